@@ -70,12 +70,26 @@ type FuncGen struct {
 	invTouched map[string]touched
 	returns    []retEdge
 	fspec      *frameSpec
+	ownAllocs  []string
+	inInv      bool
+	dirty      map[string]bool
+	callEpoch  int
 }
 
 type touched struct {
 	T    string
 	Typ  types.Type
 	what string
+	cond string // reachability of the point where the object was allocated / written
+}
+
+func (fg *FuncGen) touch(ref string, typ types.Type, what string) {
+	if t, ok := fg.invTouched[ref]; ok {
+		t.cond = or(t.cond, fg.reach)
+		fg.invTouched[ref] = t
+		return
+	}
+	fg.invTouched[ref] = touched{T: ref, Typ: typ, what: what, cond: fg.reach}
 }
 
 func (fg *FuncGen) note(format string, a ...any) {
@@ -98,7 +112,12 @@ func (fg *FuncGen) assume(f string) {
 	if f == "" || f == "true" {
 		return
 	}
-	fg.asserts = append(fg.asserts, f)
+	// one assertion per conjunct (finer relevance slicing)
+	for _, p := range splitGoal(f) {
+		if p != "true" && p != "" {
+			fg.asserts = append(fg.asserts, p)
+		}
+	}
 }
 
 func (fg *FuncGen) assumeHere(f string) {
@@ -173,8 +192,12 @@ func (fg *FuncGen) typeFactsTerm(term string, t types.Type, st *State) string {
 	case *types.Slice:
 		z := e.ilit(0)
 		off, ln, cp := "(soff "+term+")", "(sllen "+term+")", "(slcap "+term+")"
+		sz := fg.g.sizes.Sizeof(u.Elem())
+		if sz <= 0 {
+			sz = 1
+		}
 		fs := []string{e.iop("<=", z, off, true), e.iop("<=", z, ln, true), e.iop("<=", ln, cp, true),
-			e.iop("<=", cp, e.ilit(maxAlloc), true), e.iop("<=", off, e.ilit(maxAlloc), true),
+			e.iop("<=", cp, e.ilit(maxAlloc/sz), true), e.iop("<=", off, e.ilit(maxAlloc/sz), true),
 			fmt.Sprintf("(>= (sbase %s) 0)", term),
 			implies(fmt.Sprintf("(= (sbase %s) 0)", term), and(fmt.Sprintf("(= %s %s)", cp, z), fmt.Sprintf("(= %s %s)", off, z)))}
 		if st != nil {
@@ -209,7 +232,7 @@ func (fg *FuncGen) val(v ssa.Value) Val {
 	case *ssa.Global:
 		c := fg.globalComp(x)
 		el := x.Type().(*types.Pointer).Elem()
-		return Val{Typ: x.Type(), Loc: &Loc{Kind: lGlobal, Comp: c.Name, Root: el, Typ: el}}
+		return Val{Typ: x.Type(), Loc: &Loc{Kind: lGlobal, Comp: c.Name, Root: el, Typ: el, Global: x}}
 	case *ssa.Builtin:
 		return Val{T: "0", Typ: x.Type()}
 	}
@@ -246,8 +269,21 @@ func (fg *FuncGen) term(v ssa.Value) string {
 	return x.T
 }
 
+func (fg *FuncGen) globalAddr(gl *ssa.Global) string {
+	name := "addr_G_" + gl.Pkg.Pkg.Name() + "." + gl.Name()
+	first := !fg.enc.declared[name]
+	t := fg.enc.declConst(name, "Int")
+	if first {
+		fg.assume(fmt.Sprintf("(< %s 0)", t))
+	}
+	return t
+}
+
 // reify turns a location into a reference term where that is meaningful.
 func (fg *FuncGen) reify(l *Loc) string {
+	if l.Kind == lGlobal && len(l.Path) == 0 && l.Global != nil {
+		return fg.globalAddr(l.Global)
+	}
 	fg.taint("address of %s used as a value", describeLoc(l))
 	return fg.enc.declConst(fg.enc.freshName("addr"), "Int")
 }
@@ -447,6 +483,8 @@ type loopInfo struct {
 	entrySt  *State
 	frameComps []string
 	text     string
+	rangeIdx *ssa.Alloc
+	rangeLen string
 }
 
 func (fg *FuncGen) findLoops() {
@@ -841,6 +879,25 @@ func (fg *FuncGen) loopHead(li *loopInfo) {
 		}
 	}
 	li.frameComps = frameComps
+	// the hidden index of a range-over-slice loop never drops below -1
+	for _, in := range li.header.Instrs {
+		if ld, ok := in.(*ssa.UnOp); ok && ld.Op == token.MUL {
+			if a, ok := ld.X.(*ssa.Alloc); ok && a.Comment == "rangeindex" && !a.Heap {
+				li.rangeIdx = a
+				// upper bound: the length the header compares against (computed before the loop)
+				for _, in2 := range li.header.Instrs {
+					if cmp, ok := in2.(*ssa.BinOp); ok && cmp.Op == token.LSS {
+						if _, isLen := cmp.Y.(*ssa.Call); isLen || true {
+							if cmp.Y.Parent() == fg.fn && !li.blocks[blockOf(cmp.Y)] {
+								li.rangeLen = fg.term(cmp.Y)
+							}
+						}
+					}
+				}
+				fg.oblige("inv-entry", label+": -1 <= rangeindex < len (implicit)", fg.rangeInv(li, entrySt), nil, "implicit")
+			}
+		}
+	}
 	// havoc
 	st := entrySt.clone()
 	if ms.all {
@@ -896,6 +953,9 @@ func (fg *FuncGen) loopHead(li *loopInfo) {
 			fg.assumeHere(f)
 		}
 	}
+	if li.rangeIdx != nil {
+		fg.assumeHere(fg.rangeInv(li, st))
+	}
 	if li.spec != nil && li.spec.Decreases != nil {
 		env := fg.loopEnv(li, st)
 		v := fg.tr(li.spec.Decreases.Expr, env, types.Typ[types.Int])
@@ -918,6 +978,9 @@ func (fg *FuncGen) loopBack(li *loopInfo, cond string) {
 		if f := fg.frameFormula(fg.cur, c); f != "" {
 			fg.oblige("inv-preserve", label+": frame of "+c, f, nil, "modifies")
 		}
+	}
+	if li.rangeIdx != nil {
+		fg.oblige("inv-preserve", label+": -1 <= rangeindex < len (implicit)", fg.rangeInv(li, fg.cur), nil, "implicit")
 	}
 	if li.spec == nil {
 		return
@@ -953,4 +1016,24 @@ func (fg *FuncGen) srcOr(pos token.Pos, want string) string {
 		return best.text + " (implicit)"
 	}
 	return "(implicit)"
+}
+
+func blockOf(v ssa.Value) *ssa.BasicBlock {
+	if in, ok := v.(ssa.Instruction); ok {
+		return in.Block()
+	}
+	return nil
+}
+
+// rangeInv: -1 <= rangeindex, and rangeindex < len when the loop has not yet run off the end
+// (at the head, before the increment, the index of the last completed iteration is < len, or
+// the slice is empty and the index is -1).
+func (fg *FuncGen) rangeInv(li *loopInfo, st *State) string {
+	e := fg.enc
+	ri := fg.cellGet(st, li.rangeIdx)
+	lo := e.iop("<=", e.ilit(-1), ri, true)
+	if li.rangeLen == "" {
+		return lo
+	}
+	return and(lo, or(e.iop("<", ri, li.rangeLen, true), fmt.Sprintf("(= %s %s)", ri, e.ilit(-1))))
 }
